@@ -101,6 +101,18 @@ func NewPool(n int, timeout time.Duration) *Pool {
 func (p *Pool) Close() {
 	for i := 0; i < p.n; i++ {
 		w := <-p.slots
+		if w != nil && os.Getenv("GOCOVERDIR") != "" {
+			// development aid (coverage runs): let an idle worker end by itself so that it writes its counters
+			w.stdin.Close()
+			done := make(chan struct{})
+			go func() { w.cmd.Wait(); close(done) }()
+			select {
+			case <-done:
+				w.proto.Close()
+				continue
+			case <-time.After(5 * time.Second):
+			}
+		}
 		w.kill()
 	}
 }
